@@ -29,8 +29,11 @@ def e2e_create(r):
                             "-o", doc, "--", cmd], cwd=root, env=env, stdout=subprocess.PIPE, stderr=subprocess.PIPE, timeout=60)
         if c.returncode != 0 or not os.path.exists(doc):
             return {"ok": False, "stage": "create", "detail": c.stderr.decode("utf-8", "replace")[-200:], "document": ""}
-        t = subprocess.run([SCRUT_BIN, "test", "--no-color", "-r", "json", doc], cwd=root, env=env, stdout=subprocess.PIPE, stderr=subprocess.PIPE, timeout=60)
         text = open(doc, errors="replace").read()
+        # the escaping mode asked for on the command line is the one in effect: in ascii mode the document is printable ASCII
+        if r["esc"] == "ascii" and any(ord(c) > 126 or (ord(c) < 32 and c != "\n") for c in text):
+            return {"ok": False, "stage": "create-not-ascii-in-ascii-mode", "detail": repr(text[-200:]), "document": text}
+        t = subprocess.run([SCRUT_BIN, "test", "--no-color", "-r", "json", doc], cwd=root, env=env, stdout=subprocess.PIPE, stderr=subprocess.PIPE, timeout=60)
         return {"ok": t.returncode == 0, "stage": "test", "detail": f"exit {t.returncode} " + t.stdout.decode("utf-8", "replace")[:300], "document": text}
     except subprocess.TimeoutExpired:
         return {"ok": False, "stage": "timeout", "detail": "", "document": ""}
